@@ -9,7 +9,7 @@ use blsful::inner_types::{Field, Group};
 use blsful::*;
 use serde_json::json;
 
-pub const RULE: &str = "recipient keys (random) x plaintext scalars from E (1,2,3,r-1,r-2,2^254,...,random) x 2 groups: decrypt(sk) must equal m*H where H is recomputed by the reference as hash_to_curve(compress(P), ENC_DST) in the key group; the library's message_generator() must equal the reference's bytes. Sums of k in {2,3,16} ciphertexts through every Add / AddAssign impl (6) must decrypt to (sum m_i)*H. Decryption shares built with the public public_key_share_with_generator(share, c1) for every (t,n) with n<=4 (quick) / n<=5 (thorough): every subset; >=t must decrypt to m*H via ElGamalDecryptionKey::from_shares, <t must not. Proofs: verify(pk), verify_and_decrypt(sk)==m*H, the reference verifier accepts the library's proof and reproduces its challenge from the merlin transcript, the library accepts a reference-built proof; perturbations that must be rejected: c1+G, c2+G, c1<->c2, each of the 3 scalars +1, challenge of another proof, ciphertext of another proof, other pk, -pk, pk+G; verify_and_decrypt with a non-matching key. Distinct by (suite,kind,inputs).";
+pub const RULE: &str = "recipient keys (random) x plaintext scalars from E (1,2,3,r-1,r-2,2^254,...,random) x 2 groups: decrypt(sk) must equal m*H where H is recomputed by the reference as hash_to_curve(compress(P), ENC_DST) in the key group; the library's message_generator() must equal the reference's bytes. Sums of k in {2,3,16} ciphertexts through every Add / AddAssign impl (6) must decrypt to (sum m_i)*H. Decryption shares built with the public public_key_share_with_generator(share, c1) for every (t,n) with n<=4 (quick) / n<=5 (thorough): every subset in ascending, reversed and shuffled order; >=t must decrypt to m*H via ElGamalDecryptionKey::from_shares, <t must not. Proofs: verify(pk), verify_and_decrypt(sk)==m*H, the reference verifier accepts the library's proof and reproduces its challenge from the merlin transcript, the library accepts a reference-built proof; perturbations that must be rejected: c1+G, c2+G, c1<->c2, each of the 3 scalars +1, challenge of another proof, ciphertext of another proof, other pk, -pk, pk+G; verify_and_decrypt with a non-matching key. Distinct by (suite,kind,inputs).";
 
 pub fn run(ctx: &mut Ctx) {
     for_both!(run_suite, ctx);
@@ -272,7 +272,21 @@ fn shares<C: Suite>(ctx: &mut Ctx, g: u64, t: usize, nn: usize) {
         .iter()
         .map(|s| ElGamalDecryptionShare(<C as BlsSignatureCore>::public_key_share_with_generator(&s.0, ct.c1).expect("share")))
         .collect();
+    let mut orders: Vec<Vec<usize>> = Vec::new();
     for sub in gen::subsets(nn) {
+        orders.push(sub.clone());
+        if sub.len() >= 2 {
+            let mut r = sub.clone();
+            r.reverse();
+            orders.push(r);
+            let mut s = sub.clone();
+            gen::shuffle(&mut s, &mut rng);
+            if s != sub {
+                orders.push(s);
+            }
+        }
+    }
+    for sub in orders {
         let sel: Vec<ElGamalDecryptionShare<C>> = sub.iter().map(|i| ds[*i].clone()).collect();
         let enough = sub.len() >= t;
         let d = || json!({"suite":n,"t":t,"n":nn,"subset":sub});
